@@ -70,6 +70,17 @@ class OwnedGenerator(np.random.Generator):
         self.calls.append(len(x))
         return x[np.asarray(order, dtype=int)] if len(x) else x
 
+    # the other spellings of "draw an order" that numpy offers: the same prescribed orders, applied in place / to a copy
+    def shuffle(self, x, axis=0):
+        x[...] = self.permutation(np.array(x))
+
+    def permuted(self, x, axis=None, out=None):
+        res = self.permutation(np.array(x))
+        if out is not None:
+            out[...] = res
+            return out
+        return res
+
 
 def _batcher():
     from quantem.diffractive_imaging.ptycho_utils import SimpleBatcher
